@@ -146,7 +146,7 @@ class CenterSliceErrorModel(SimpleErrorModel):
     def probability_distribution(self, probability):
         """See :meth:`qecsim.model.ErrorModel.probability_distribution`"""
         p_x, p_y, p_z = np.array(self.ratio) * probability
-        p_i = 1 - sum((p_x, p_y, p_z))
+        p_i = 1 - probability
         return p_i, p_x, p_y, p_z
 
     @property
